@@ -213,6 +213,51 @@ func (t *Type) RType() reflect.Type {
 // String renders the type in Go syntax including tags.
 func (t *Type) String() string { return t.RType().String() }
 
+// Twin returns a deep copy of t in which every struct field, at every depth, carries
+// the tag key `key`; the tag texts (names and options) are unchanged.
+func Twin(t *Type, key string) *Type {
+	if t == nil {
+		return nil
+	}
+	c := &Type{Kind: t.Kind, Elem: Twin(t.Elem, key)}
+	for _, f := range t.Fields {
+		g := *f
+		g.TagKey = key
+		g.T = Twin(f.T, key)
+		c.Fields = append(c.Fields, &g)
+	}
+	return c
+}
+
+// Interference is a call that has nothing to do with the judged one except that it goes through
+// the same process-wide machinery: the json-keyed twin of a spec (same tag texts), a valid
+// document for it, and a canonical key function for the unmarshaler that decodes it.  The judged
+// call's verdict must not depend on whether, or in which order, such calls happened.
+type Interference struct {
+	Twin      *Type
+	Doc       map[string]any
+	CanonName string
+	Canon     func(string) string // nil: no canonical key function
+}
+
+// GenInterference draws an Interference for spec.
+func GenInterference(t *rapid.T, spec *Type) Interference {
+	tw := Twin(spec, "json")
+	in := GenInput(t, tw, "valid")
+	i := Interference{Twin: tw, Doc: in.Docs["json"]}
+	switch rapid.IntRange(0, 3).Draw(t, "interfereCanon") {
+	case 0:
+		i.CanonName, i.Canon = "upper", strings.ToUpper
+	case 1:
+		i.CanonName, i.Canon = "lower", strings.ToLower
+	case 2:
+		i.CanonName, i.Canon = "mime", textproto.CanonicalMIMEHeaderKey
+	default:
+		i.CanonName = "none"
+	}
+	return i
+}
+
 var scalarRT = map[reflect.Kind]reflect.Type{
 	reflect.Bool: reflect.TypeOf(false), reflect.String: reflect.TypeOf(""),
 	reflect.Int: reflect.TypeOf(int(0)), reflect.Int8: reflect.TypeOf(int8(0)),
